@@ -15,12 +15,17 @@
 (* and record keys are atomic names, related to their token spelling by    *)
 (* the tables PathTable / NameTable (TLC cannot look inside strings).      *)
 (***************************************************************************)
-EXTENDS CedarPolicy
+EXTENDS CedarPolicy, TLC
 
 CONSTANTS PathTable,   \* sequence of [name, parts]: "NS::T" <-> <<"NS", "T">>
           NameTable,   \* sequence of [name, cps]: attribute / key names that need a string literal
           IdTable,     \* sequence of [name, cps]: entity ids (atomic names in the model) and their characters
-          WordTable    \* sequence of [name, cps]: identifier-shaped words (used by the lexer only)
+          WordTable,   \* sequence of [name, cps]: identifier-shaped words (used by the lexer only)
+          ByCps        \* [on |-> FALSE], or [on |-> TRUE, names, nameKeys, words, wordKeys]: the tables in the direction
+                       \* code points -> name as functions keyed by ToString(cps) (constant-time lookup for the long
+                       \* tables of recorded traces; a linear scan of a sequence costs TLC microseconds per row)
+NoFast == [on |-> FALSE]
+Key(cps) == ToString(cps)
 
 Reserved == {"true", "false", "if", "then", "else", "in", "like", "has", "is", "__cedar"}
 Id(s)  == [t |-> IF s \in Reserved THEN "kw" ELSE "id", s |-> s]
@@ -78,9 +83,11 @@ PathParts(ty) == ty
 TypeNameOf(parts) == IF \E k \in DOMAIN PathTable : PathTable[k].parts = parts
                      THEN PathTable[CHOOSE k \in DOMAIN PathTable : PathTable[k].parts = parts].name ELSE "?"
 TypePartsOf(name) == PathTable[CHOOSE k \in DOMAIN PathTable : PathTable[k].name = name].parts
-NameOfCps(cps) == IF \E k \in DOMAIN NameTable : NameTable[k].cps = cps
+NameOfCps(cps) == IF ByCps.on THEN (IF Key(cps) \in ByCps.nameKeys THEN ByCps.names[Key(cps)] ELSE "?") ELSE
+                  IF \E k \in DOMAIN NameTable : NameTable[k].cps = cps
                   THEN NameTable[CHOOSE k \in DOMAIN NameTable : NameTable[k].cps = cps].name ELSE "?"
-IdOfCps(cps) == IF \E k \in DOMAIN IdTable : IdTable[k].cps = cps
+IdOfCps(cps) == IF ByCps.on THEN (IF Key(cps) \in ByCps.nameKeys THEN ByCps.names[Key(cps)] ELSE "?") ELSE
+                IF \E k \in DOMAIN IdTable : IdTable[k].cps = cps
                 THEN IdTable[CHOOSE k \in DOMAIN IdTable : IdTable[k].cps = cps].name
                 ELSE IF \E k \in DOMAIN NameTable : NameTable[k].cps = cps       \* (any known string may be used as an id)
                 THEN NameTable[CHOOSE k \in DOMAIN NameTable : NameTable[k].cps = cps].name ELSE "?"
@@ -344,7 +351,8 @@ ParsePolicyList(ts) == ParseListFrom(ts, 1, <<>>)
 IsWs(c) == c \in {32, 9, 10, 13}
 IsIdStart(c) == c \in 65..90 \/ c \in 97..122 \/ c = 95
 IsIdCont(c) == IsIdStart(c) \/ IsDigit(c)
-WordOf(cps) == IF \E k \in DOMAIN WordTable : WordTable[k].cps = cps
+WordOf(cps) == IF ByCps.on THEN (IF Key(cps) \in ByCps.wordKeys THEN ByCps.words[Key(cps)] ELSE "?") ELSE
+               IF \E k \in DOMAIN WordTable : WordTable[k].cps = cps
                THEN WordTable[CHOOSE k \in DOMAIN WordTable : WordTable[k].cps = cps].name ELSE "?"
 RECURSIVE IdEnd(_, _), DigEnd(_, _), StrEnd(_, _), LineEnd(_, _), BlockEnd(_, _)
 IdEnd(s, i) == IF i <= Len(s) /\ IsIdCont(s[i]) THEN IdEnd(s, i + 1) ELSE i          \* first index after the run
